@@ -407,4 +407,121 @@ theorem nrun_ok (c : Cfg α) (e : Env α) (es : List (Env α)) (s s1 : NSt α) (
 theorem not_finished_iff (c : Cfg α) (b : St α) : finished c b = false ↔ b.step < c.nsteps := by
   simp [finished]
 
+
+/-! ### Forced bisection: the potential of an open search -/
+
+/-- C19's forced-bisection guard (ε = 1) for every step from `k0` on, steps shorter than `2^(n+1)`. -/
+def ForcedGrid (c : Cfg α) (k0 n : Nat) : Prop :=
+  ∀ (k : Nat) (tk tk1 : α), k0 ≤ k → c.times[k]? = some tk → c.times[k + 1]? = some tk1 →
+    0 < tk ∧ tk1 - tk < 2 * tk ∧ tk1 - tk < 2 ^ (n + 1)
+
+/-- an open search is in C19's `Forced` regime and its bracket is narrower than `2^(h+1)` -/
+def FInv (s : NSt α) (h : Nat) : Prop :=
+  ∀ r, s.rf = some r → ∃ r0 L H, Forced L H r0 ∧ r = (getNext r0).1 ∧ s.base.tgt = (getNext r0).2
+    ∧ |r0.b - r0.a| < 2 ^ (h + 1)
+
+theorem nsc_forced (c : Cfg α) (hc : GridOk c) (s : NSt α) (e : Env α) (hi : NInv c s)
+    (hlive : s.base.step < c.nsteps) (n h : Nat) (hF : ForcedGrid c s.base.step n) (hf : FInv s h)
+    (s' : NSt α) (evs : List (Rec α)) (hok : nsweepComplete c s e = .ok (s', evs)) :
+    (s.rf = none → FInv s' n) ∧ (s.rf.isSome = true → s'.rf.isSome = true → 1 ≤ h ∧ FInv s' (h - 1)) := by
+  obtain ⟨tk, tk1, htk, htk1, hle, hnone, hsome⟩ := hi.live hlive
+  obtain ⟨hpos, hnar, hwid⟩ := hF s.base.step tk tk1 (le_refl _) htk htk1
+  have hn2 := hc.n2
+  unfold nsweepComplete at hok
+  cases hrf : s.rf with
+  | none =>
+    refine ⟨fun _ => ?_, fun h => by simp [hrf] at h⟩
+    obtain ⟨htgt, hcl, hcu⟩ := hnone hrf
+    rw [hrf] at hok
+    simp only at hok
+    by_cases hg : e.sq - s.thr < 0
+    · simp only [hg, if_true] at hok
+      unfold openSearch at hok
+      cases hin : Brent.init s.base.cur s.base.tgt s.gap (e.sq - s.thr) 1 with
+      | none => rw [hin] at hok; simp at hok
+      | some r0 =>
+        rw [hin] at hok
+        have hz := init_no_zeroDiv one_pos hin
+        simp only [hz, Bool.false_eq_true, if_false, Except.ok.injEq, Prod.mk.injEq] at hok
+        obtain ⟨e1, _⟩ := hok
+        subst e1
+        intro r hr
+        simp only [Option.some.injEq] at hr
+        subst hr
+        have hcp : 0 < s.base.cur := lt_of_lt_of_le hpos hcl
+        have hfi := forced_init hin hcp one_pos (by rw [htgt]; linarith)
+        obtain ⟨_, _, _, hlo, hhi, _⟩ := init_some hin
+        refine ⟨r0, s.base.cur, s.base.tgt, hfi, rfl, rfl, ?_⟩
+        rw [← width_eq, hlo, hhi, htgt]
+        linarith
+    · simp only [hg, if_false] at hok
+      cases htc : timestepComplete c { s.base with cur := s.base.tgt } with
+      | error err => rw [htc] at hok; simp at hok
+      | ok v =>
+        rw [htc] at hok
+        simp only [Except.ok.injEq, Prod.mk.injEq] at hok
+        obtain ⟨e1, _⟩ := hok
+        subst e1
+        intro r hr
+        simp at hr
+  | some r =>
+    refine ⟨fun h => by simp at h, fun _ hs' => ?_⟩
+    obtain ⟨r0, L, H, hFo, hr, htgt, hw⟩ := hf r hrf
+    rw [hrf] at hok
+    simp only at hok
+    subst hr
+    have hfs := forced_step r0 (e.sq - s.thr) hFo
+    rw [← htgt] at hfs
+    obtain ⟨hF1, hw1⟩ := hfs
+    by_cases hconv : isConverged (provide (getNext r0).1 s.base.tgt (e.sq - s.thr)) 1 = true
+    · exfalso
+      have h2 : ¬ c.n < 2 := by omega
+      simp only [hconv, if_true, doJump, initBaths, h2, if_false, htk1, Except.ok.injEq, Prod.mk.injEq] at hok
+      obtain ⟨e1, _⟩ := hok
+      subst e1
+      simp at hs'
+    · have hnc : ¬ |(provide (getNext r0).1 s.base.tgt (e.sq - s.thr)).b
+                    - (provide (getNext r0).1 s.base.tgt (e.sq - s.thr)).a| < 1 := by
+        simpa [isConverged, absv_eq_abs] using hconv
+      rw [hw1] at hnc
+      have hh : 1 ≤ h := by
+        by_contra hlt
+        have h0 : h = 0 := by omega
+        subst h0
+        apply hnc
+        have : |r0.b - r0.a| < 2 := by simpa using hw
+        linarith
+      refine ⟨hh, ?_⟩
+      simp only [hconv, Bool.false_eq_true, if_false] at hok
+      by_cases hz : divZero (provide (getNext r0).1 s.base.tgt (e.sq - s.thr)) = true
+      · simp [hz] at hok
+      · simp only [hz, Bool.false_eq_true, if_false, Except.ok.injEq, Prod.mk.injEq] at hok
+        obtain ⟨e1, _⟩ := hok
+        subst e1
+        intro r' hr'
+        simp only [Option.some.injEq] at hr'
+        subst hr'
+        refine ⟨_, L, H, hF1, rfl, rfl, ?_⟩
+        rw [hw1]
+        have e2 : h - 1 + 1 = h := by omega
+        rw [e2]
+        have : (2 : α) ^ (h + 1) = 2 ^ h * 2 := pow_succ 2 h
+        linarith
+
+/-- `nstep` is the sweep followed by `nsweepComplete` on the same state. -/
+theorem nstep_ok_nsc (c : Cfg α) (hc : GridOk c) (s : NSt α) (e : Env α) (hi : NInv c s)
+    (s' : NSt α) (evs : List (Rec α)) (h : nstep c s e = .ok (s', evs)) :
+    ∃ evs1, nsweepComplete c s e = .ok (s', evs1) := by
+  obtain ⟨recs, rest, hsw, _, _⟩ := sweepCore_start c s.base hc.n2 hi.start
+  unfold nstep at h
+  rw [hsw] at h
+  simp only at h
+  rw [show ({ s with base := s.base } : NSt α) = s from rfl] at h
+  cases hn : nsweepComplete c s e with
+  | error err => rw [hn] at h; simp at h
+  | ok v =>
+    rw [hn] at h
+    simp only [Except.ok.injEq, Prod.mk.injEq] at h
+    exact ⟨v.2, by rw [← h.1]⟩
+
 end EmuVerif.Stepper
